@@ -208,18 +208,13 @@ impl Sub for ExpiryDefault {
           }
         }
       }
-      // supplied values replace the defaults; nothing else appears
+      // a supplied time claim takes the place of its default (other claims are C14's / C17's subject)
       for (k, (_, val)) in &b.supplied {
-        if k == "exp" && b.ack {
+        if !["exp", "iat", "nbf"].contains(&k.as_str()) || (k == "exp" && b.ack) {
           continue;
         }
         if obj.get(k) != Some(val) {
-          vio!("C13:supplied-claim-lost:{}-build:{}", nth, if ["exp", "iat", "nbf"].contains(&k.as_str()) { k.as_str() } else { "other" }; "supplied {} = {} but payload is {} — history {:?}", k, val, v, hist);
-        }
-      }
-      for k in obj.keys() {
-        if !["exp", "iat", "nbf"].contains(&k.as_str()) && !b.supplied.contains_key(k) {
-          vio!("C13:unexpected-member:{}", nth; "payload member {:?} was never supplied: {} — history {:?}", k, v, hist);
+          vio!("C13:supplied-claim-lost:{}-build:{}", nth, k; "supplied {} = {} but payload is {} — history {:?}", k, val, v, hist);
         }
       }
     }
